@@ -102,9 +102,7 @@ impl Stringify for Template {
             let nodes = &t.content;
             if !is_children_empty(nodes) {
                 stringifier.write_str(r#">"#)?;
-                for node in nodes {
-                    node.stringify_write(stringifier)?;
-                }
+                write_nodes(nodes, stringifier)?;
                 stringifier.write_token(
                     r#"<"#,
                     None,
@@ -122,9 +120,7 @@ impl Stringify for Template {
                 stringifier.write_token(">", None, &tag_location.start.1)?;
             }
         }
-        for node in self.content.iter() {
-            node.stringify_write(stringifier)?;
-        }
+        write_nodes(&self.content, stringifier)?;
         stringifier.scope_names.clear();
         Ok(())
     }
@@ -156,6 +152,36 @@ impl Stringify for Node {
         }
         Ok(())
     }
+}
+
+/// Write a node list.
+///
+/// Comments are not printed, but two text nodes that were separated by a comment stay separated
+/// (otherwise they would be read back as a single text node, or even fuse into other syntax).
+fn write_nodes<'s, W: FmtWrite>(nodes: &[Node], stringifier: &mut Stringifier<'s, W>) -> FmtResult {
+    let mut prev_is_text = false;
+    let mut comment_skipped = false;
+    for node in nodes {
+        match node {
+            Node::Comment(..) => {
+                comment_skipped = prev_is_text;
+            }
+            Node::Text(..) => {
+                if prev_is_text && comment_skipped {
+                    stringifier.write_str("<!---->")?;
+                }
+                node.stringify_write(stringifier)?;
+                prev_is_text = true;
+                comment_skipped = false;
+            }
+            Node::Element(..) | Node::UnknownMetaTag(..) => {
+                node.stringify_write(stringifier)?;
+                prev_is_text = false;
+                comment_skipped = false;
+            }
+        }
+    }
+    Ok(())
 }
 
 fn is_children_empty(children: &[Node]) -> bool {
@@ -401,9 +427,7 @@ impl Stringify for Element {
                 write_named_attr(stringifier, name, loc, value)?;
                 if !is_children_empty(children) {
                     stringifier.write_token(">", None, &self.tag_location.start.1)?;
-                    for child in children {
-                        child.stringify_write(stringifier)?;
-                    }
+                    write_nodes(children, stringifier)?;
                     stringifier.write_token(
                         "<",
                         None,
@@ -438,9 +462,7 @@ impl Stringify for Element {
                 stringifier.write_token("wx:else", None, loc)?;
                 if !is_children_empty(children) {
                     stringifier.write_token(">", None, &self.tag_location.start.1)?;
-                    for child in children {
-                        child.stringify_write(stringifier)?;
-                    }
+                    write_nodes(children, stringifier)?;
                     stringifier.write_token(
                         "<",
                         None,
@@ -655,9 +677,7 @@ impl Stringify for Element {
         let children = self.children().unwrap_or(&empty_children);
         if !is_children_empty(children) {
             stringifier.write_token(">", None, &self.tag_location.start.1)?;
-            for child in children {
-                child.stringify_write(stringifier)?;
-            }
+            write_nodes(children, stringifier)?;
             stringifier.write_token(
                 "<",
                 None,
